@@ -17,3 +17,5 @@ func verifState(_ *Process, _ string) {}
 func verifTimeUnit() time.Duration { return 0 }
 
 func verifYield(_, _ string) {}
+
+func verifInjectedProbes() bool { return false }
